@@ -36,11 +36,15 @@ type fakeNode struct {
 	txCh      chan *wire.MsgTx
 	closed    bool
 	cancels   int
+	latency   time.Duration // time the node takes to answer a cancel (it takes its lock there)
 }
 
 func (f *fakeNode) ID() uuid.UUID { return f.id }
 
 func (f *fakeNode) CancelBlockRequest(ctx context.Context, hash bitcoin.Hash32) bool {
+	if f.latency > 0 {
+		time.Sleep(f.latency)
+	}
 	f.mu.Lock()
 	defer f.mu.Unlock()
 	f.cancels++
